@@ -35,6 +35,13 @@ theorem All2.filter {α β : Type} {P : α → β → Prop} {p : α → Bool} {q
   | [], _ :: _, h => h.elim
   | _ :: _, [], h => h.elim
 
+theorem all2_map_eq' {α β γ : Type} {P : α → β → Prop} {f : α → γ} {g : β → γ} (h : ∀ a b, P a b → f a = g b) :
+    ∀ {l : List α} {m : List β}, All2 P l m → l.map f = m.map g
+  | [], [], _ => rfl
+  | a :: l, b :: m, h1 => by rw [List.map_cons, List.map_cons, h a b h1.1, all2_map_eq' h h1.2]
+  | [], _ :: _, h1 => h1.elim
+  | _ :: _, [], h1 => h1.elim
+
 theorem All2.drop {α β : Type} {P : α → β → Prop} :
     ∀ (n : Nat) {l : List α} {m : List β}, All2 P l m → All2 P (l.drop n) (m.drop n)
   | 0, _, _, h => h
@@ -243,6 +250,10 @@ theorem rel_splitBool {R : Ren} : ∀ {e' e : BoolExpr}, relB R e' e → ∀ (su
   | .leaf _, .bin .., he, _, _, _, _, _ => by simp [relB] at he
   | .bin .., .leaf _, he, _, _, _, _, _ => by simp [relB] at he
 
+/-- related state, related branch, equal rest -/
+def RelCreate {β : Type} (R : Ren) (r' r : WS × Branch × β) : Prop :=
+  RelWS R r'.1 r.1 ∧ RelBranch R r'.2.1 r.2.1 ∧ r'.2.2 = r.2.2
+
 /-- related state, equal rest -/
 def RelWSX {β : Type} (R : Ren) (r' r : WS × β) : Prop := RelWS R r'.1 r.1 ∧ r'.2 = r.2
 
@@ -325,7 +336,7 @@ theorem createIf_eq (cond : BoolExpr) (body : List Stmt) (elifs : List (BoolExpr
 theorem rel_createIf_tail {R : Ren} {cond' cond : BoolExpr} {es' es : List (BoolExpr × List Stmt)}
     (hcond : relB R cond' cond) (hes : RelElifs R es' es) (ids' : List Nat) (lf : Option Nat) (k : Nat)
     (ret' : Option Nat) {s4' s4 : WS} (hs4 : RelWS R s4' s4) :
-    RelEx (RelWSX R)
+    RelEx (RelCreate R)
       (match splitElifs es' ids' lf s4' with
         | .error e => .error e
         | .ok (s, afterCons) =>
@@ -361,13 +372,13 @@ theorem rel_createIf_tail {R : Ren} {cond' cond : BoolExpr} {es' es : List (Bool
       obtain ⟨s6', m'⟩ := b2'
       obtain ⟨s6, m⟩ := b2
       obtain ⟨hs6, rfl⟩ := ih2
-      exact ⟨hs6, rfl⟩
+      exact ⟨hs6, .jump _, rfl⟩
 
 theorem rel_createIf {R : Ren} {cond' cond : BoolExpr} {body' body : List Stmt}
     {es' es : List (BoolExpr × List Stmt)} {el' el : Option (List Stmt)} {c' c : Chunk} {s' s : WS}
     (hcond : relB R cond' cond) (hbody : RelL R body' body) (hes : RelElifs R es' es)
     (hel : RelOptL R el' el) (hc : RelChunk R c' c) (hs : RelWS R s' s) (i : Nat) :
-    RelEx (RelWSX R) (createIf cond' body' es' el' c' i s') (createIf cond body es el c i s) := by
+    RelEx (RelCreate R) (createIf cond' body' es' el' c' i s') (createIf cond body es el c i s) := by
   rw [createIf_eq, createIf_eq]
   have h0 := rel_splitChunkForBranch hc hs i
   revert h0
@@ -410,7 +421,7 @@ theorem rel_createIf {R : Ren} {cond' cond : BoolExpr} {body' body : List Stmt}
 theorem rel_createWhile {R : Ren} {cond' cond : Option BoolExpr} {body' body : List Stmt} {c' c : Chunk}
     {s' s : WS} (hcond : relOptB R cond' cond) (hbody : RelL R body' body) (hc : RelChunk R c' c)
     (hs : RelWS R s' s) (i : Nat) :
-    RelEx (RelWSX R) (createWhile cond' body' c' i s') (createWhile cond body c i s) := by
+    RelEx (RelCreate R) (createWhile cond' body' c' i s') (createWhile cond body c i s) := by
   unfold createWhile
   have h0 := rel_splitChunkForBranch hc hs i
   revert h0
@@ -435,7 +446,7 @@ theorem rel_createWhile {R : Ren} {cond' cond : Option BoolExpr} {body' body : L
     | none =>
       simp only [RelEx]
       exact ⟨⟨rfl, hs1.final, All2.append hs1.queue ⟨hcons, ⟨rfl, rfl, rfl, .nil, .jump _⟩, trivial⟩, hs1.brk,
-        hs1.cont⟩, rfl⟩
+        hs1.cont⟩, .jump _, rfl⟩
   | some e' =>
     cases cond with
     | none => exact hcond.elim
@@ -454,12 +465,12 @@ theorem rel_createWhile {R : Ren} {cond' cond : Option BoolExpr} {body' body : L
         obtain ⟨hs6, rfl⟩ := ih2
         simp only at hs6
         exact ⟨⟨hs6.counter, hs6.final,
-          All2.append hs6.queue ⟨hcons, ⟨rfl, rfl, rfl, .nil, .jump _⟩, trivial⟩, hs6.brk, hs6.cont⟩, rfl⟩
+          All2.append hs6.queue ⟨hcons, ⟨rfl, rfl, rfl, .nil, .jump _⟩, trivial⟩, hs6.brk, hs6.cont⟩, .jump _, rfl⟩
 
 theorem rel_createDoWhile {R : Ren} {cond' cond : BoolExpr} {body' body : List Stmt} {c' c : Chunk}
     {s' s : WS} (hcond : relB R cond' cond) (hbody : RelL R body' body) (hc : RelChunk R c' c)
     (hs : RelWS R s' s) (i : Nat) :
-    RelEx (RelWSX R) (createDoWhile cond' body' c' i s') (createDoWhile cond body c i s) := by
+    RelEx (RelCreate R) (createDoWhile cond' body' c' i s') (createDoWhile cond body c i s) := by
   unfold createDoWhile
   have h0 := rel_splitChunkForBranch hc hs i
   revert h0
@@ -490,7 +501,7 @@ theorem rel_createDoWhile {R : Ren} {cond' cond : BoolExpr} {body' body : List S
     obtain ⟨hs6, rfl⟩ := ih2
     simp only at hs6
     exact ⟨⟨hs6.counter, hs6.final,
-      All2.append hs6.queue ⟨hcons, ⟨rfl, rfl, rfl, .nil, .jump _⟩, trivial⟩, hs6.brk, hs6.cont⟩, rfl⟩
+      All2.append hs6.queue ⟨hcons, ⟨rfl, rfl, rfl, .nil, .jump _⟩, trivial⟩, hs6.brk, hs6.cont⟩, .jump _, rfl⟩
 
 theorem rel_switchBodies {R : Ren} (ret : Option Nat) : ∀ {cs' cs : List SwitchCase}, RelCases R cs' cs →
     ∀ {s' s : WS}, RelWS R s' s → RelWSX R (switchBodies ret cs' s') (switchBodies ret cs s)
@@ -620,7 +631,7 @@ theorem createSwitch_eq (operand : Tok) (cases : List SwitchCase) (c : Chunk) (i
 
 theorem rel_createSwitch {R : Ren} {cs' cs : List SwitchCase} {c' c : Chunk} {s' s : WS}
     (hcs : RelCases R cs' cs) (hc : RelChunk R c' c) (hs : RelWS R s' s) (operand : Tok) (i : Nat) :
-    RelWSX R (createSwitch operand cs' c' i s') (createSwitch operand cs c i s) := by
+    RelCreate R (createSwitch operand cs' c' i s') (createSwitch operand cs c i s) := by
   rw [createSwitch_eq, createSwitch_eq]
   have h0 := rel_splitChunkForBranch hc hs i
   revert h0
@@ -649,7 +660,7 @@ theorem rel_createSwitch {R : Ren} {cs' cs : List SwitchCase} {c' c : Chunk} {s'
   subst hids
   simp only
   cases hall : ids'.all (·.isNone) with
-  | true => simp only [if_true]; exact ⟨hs3, rfl⟩
+  | true => simp only [if_true]; exact ⟨hs3, .jump _, rfl⟩
   | false =>
     simp only [Bool.false_eq_true, if_false]
     have hbr := fun e => switchBranchOf_rel hcs operand (propagateBack ids') e ret'
@@ -658,7 +669,7 @@ theorem rel_createSwitch {R : Ren} {cs' cs : List SwitchCase} {c' c : Chunk} {s'
     | true =>
       simp only [if_true, hs3.counter, (hbr _).1]
       obtain ⟨bcs, d, dest, hb⟩ := switchBranchOf_switch operand cs (propagateBack ids') (s3.counter + 1) ret'
-      refine ⟨⟨rfl, hs3.final, ?_, hs3.brk, hs3.cont⟩, rfl⟩
+      refine ⟨⟨rfl, hs3.final, ?_, hs3.brk, hs3.cont⟩, .jump _, rfl⟩
       refine All2.modify ?_ _ (hs3.queue.snoc ⟨rfl, rfl, rfl, .nil, .none⟩)
       intro a b hab
       refine ⟨hab.id, hab.ret, hab.term, hab.stmts, ?_⟩
@@ -667,7 +678,7 @@ theorem rel_createSwitch {R : Ren} {cs' cs : List SwitchCase} {c' c : Chunk} {s'
     | false =>
       simp only [Bool.false_eq_true, if_false, (hbr _).1]
       obtain ⟨bcs, d, dest, hb⟩ := switchBranchOf_switch operand cs (propagateBack ids') 0 ret'
-      refine ⟨⟨hs3.counter, hs3.final, ?_, hs3.brk, hs3.cont⟩, rfl⟩
+      refine ⟨⟨hs3.counter, hs3.final, ?_, hs3.brk, hs3.cont⟩, .jump _, rfl⟩
       refine All2.modify ?_ _ hs3.queue
       intro a b hab
       refine ⟨hab.id, hab.ret, hab.term, hab.stmts, ?_⟩
@@ -677,22 +688,25 @@ theorem rel_createSwitch {R : Ren} {cs' cs : List SwitchCase} {c' c : Chunk} {s'
 theorem scanSimple_rel {R : Ren} : ∀ {a' a : List Stmt}, RelL R a' a → ∀ (i len : Nat),
     scanSimple a' i len = scanSimple a i len
   | _, _, .nil, _, _ => rfl
-  | _, _, .cons (.cmd hc) hr, i, len => by
-    simp only [scanSimple, hc.2.2.1, scanSimple_rel hr]
-  | _, _, .cons (.label ..) hr, i, len => by simp only [scanSimple, scanSimple_rel hr]
-  | _, _, .cons (.ite ..) hr, i, len => by simp only [scanSimple]
-  | _, _, .cons (.while_ ..) hr, i, len => by simp only [scanSimple]
-  | _, _, .cons (.doWhile ..) hr, i, len => by simp only [scanSimple]
-  | _, _, .cons (.brk ..) hr, i, len => by simp only [scanSimple]
-  | _, _, .cons (.cont ..) hr, i, len => by simp only [scanSimple]
-  | _, _, .cons (.switch_ ..) hr, i, len => by simp only [scanSimple]
+  | _, _, .cons hx hr, i, len => by
+    have ih := fun i => scanSimple_rel hr i len
+    cases hx with
+    | cmd hc => simp only [scanSimple, hc.2.2.1, ih]
+    | label => simp only [scanSimple, ih]
+    | ite => simp only [scanSimple]
+    | while_ => simp only [scanSimple]
+    | doWhile => simp only [scanSimple]
+    | brk => simp only [scanSimple]
+    | cont => simp only [scanSimple]
+    | switch_ => simp only [scanSimple]
 
 theorem lookup_rel {β : Type} {P : Nat → Nat → Prop} (hm : Mono P) {k' k : Nat} (hk : P k' k) :
     ∀ {l' l : List (Nat × β)}, All2 (fun p' p => P p'.1 p.1 ∧ p'.2 = p.2) l' l → l'.lookup k' = l.lookup k
   | [], [], _ => rfl
   | (a', v') :: l', (a, v) :: l, h => by
     obtain ⟨⟨h1, h2⟩, h3⟩ := h
-    simp only at h1 h2
+    have h1 : P a' a := h1
+    have h2 : v' = v := h2
     subst h2
     have ih := lookup_rel hm hk h3
     have hbeq : (k' == a') = (k == a) := by
@@ -704,9 +718,443 @@ theorem lookup_rel {β : Type} {P : Nat → Nat → Prop} (hm : Mono P) {k' k : 
       · have : k' ≠ a' := by
           intro h; subst h
           exact hka (hm.functional hk h1)
-        simp [hka, this]
+        rw [beq_eq_false_iff_ne.mpr this, beq_eq_false_iff_ne.mpr hka]
     simp only [List.lookup, hbeq, ih]
   | [], _ :: _, h => h.elim
   | _ :: _, [], h => h.elim
+
+theorem rel_processChunk {R : Ren} (hm : Mono R.s) {cur' cur : Chunk} {s' s : WS} (hc : RelChunk R cur' cur)
+    (hs : RelWS R s' s) : RelEx (RelWS R) (processChunk cur' s') (processChunk cur s) := by
+  unfold processChunk
+  rw [scanSimple_rel hc.stmts, hc.stmts.length_eq]
+  generalize scanSimple cur.statements 0 cur.statements.length = r
+  obtain ⟨i, fin⟩ := r
+  simp only
+  cases fin with
+  | some isEnd =>
+    simp only [RelEx]
+    exact hs.setFinal ⟨hc.id, rfl, rfl, hc.stmts.take i, .none⟩
+  | none =>
+    simp only
+    have hdef : RelWS R
+        (s'.setFinal { id := cur'.id, returnID := cur'.returnID, statements := cur'.statements.take i })
+        (s.setFinal { id := cur.id, returnID := cur.returnID, statements := cur.statements.take i }) :=
+      hs.setFinal ⟨hc.id, hc.ret, rfl, hc.stmts.take i, .none⟩
+    cases hi : (i == cur.statements.length) with
+    | true => simp only [if_true, RelEx]; exact hs.setFinal hc
+    | false =>
+      simp only [Bool.false_eq_true, if_false]
+      rcases hc.stmts.get? i with ⟨h1, h2⟩ | ⟨x', x, h1, h2, hx⟩
+      · rw [h1, h2]; simp only [RelEx]; exact hdef
+      · rw [h1, h2]
+        cases hx with
+        | cmd => simp only [RelEx]; exact hdef
+        | label => simp only [RelEx]; exact hdef
+        | @ite t c' c b' b es' es el' el hcond hb hes hel =>
+          simp only
+          have ih := rel_createIf hcond hb hes hel hc hs i
+          revert ih
+          generalize createIf c' b' es' el' cur' i s' = y'
+          generalize createIf c b es el cur i s = y
+          intro ih
+          cases y' <;> cases y <;> simp only [RelEx] at ih ⊢
+          · exact ih
+          · rename_i a' a
+            obtain ⟨s2', br', ret'⟩ := a'
+            obtain ⟨s2, br, ret⟩ := a
+            obtain ⟨hs2, hbr, hret⟩ := ih
+            simp only at hs2 hbr hret
+            subst hret
+            exact hs2.setFinal ⟨hc.id, rfl, rfl, hc.stmts.take i, hbr⟩
+        | @while_ t sid' sid c' c b' b hsid hcond hb =>
+          simp only
+          have ih := rel_createWhile hcond hb hc hs i
+          revert ih
+          generalize createWhile c' b' cur' i s' = y'
+          generalize createWhile c b cur i s = y
+          intro ih
+          cases y' <;> cases y <;> simp only [RelEx] at ih ⊢
+          · exact ih
+          · rename_i a' a
+            obtain ⟨s2', br', ret', cid'⟩ := a'
+            obtain ⟨s2, br, ret, cid⟩ := a
+            obtain ⟨hs2, hbr, hret⟩ := ih
+            simp only [Prod.mk.injEq] at hs2 hbr hret
+            obtain ⟨rfl, rfl⟩ := hret
+            have hf := hs2.setFinal (⟨hc.id, rfl, rfl, hc.stmts.take i, hbr⟩ :
+              RelChunk R ⟨cur'.id, ret', false, cur'.statements.take i, br'⟩
+                ⟨cur.id, ret', false, cur.statements.take i, br⟩)
+            exact ⟨hf.counter, hf.final, hf.queue, ⟨⟨hsid, rfl⟩, hf.brk⟩, ⟨⟨hsid, rfl⟩, hf.cont⟩⟩
+        | @doWhile t sid' sid c' c b' b hsid hcond hb =>
+          simp only
+          have ih := rel_createDoWhile hcond hb hc hs i
+          revert ih
+          generalize createDoWhile c' b' cur' i s' = y'
+          generalize createDoWhile c b cur i s = y
+          intro ih
+          cases y' <;> cases y <;> simp only [RelEx] at ih ⊢
+          · exact ih
+          · rename_i a' a
+            obtain ⟨s2', br', ret', cid'⟩ := a'
+            obtain ⟨s2, br, ret, cid⟩ := a
+            obtain ⟨hs2, hbr, hret⟩ := ih
+            simp only [Prod.mk.injEq] at hs2 hbr hret
+            obtain ⟨rfl, rfl⟩ := hret
+            have hf := hs2.setFinal (⟨hc.id, rfl, rfl, hc.stmts.take i, hbr⟩ :
+              RelChunk R ⟨cur'.id, ret', false, cur'.statements.take i, br'⟩
+                ⟨cur.id, ret', false, cur.statements.take i, br⟩)
+            exact ⟨hf.counter, hf.final, hf.queue, ⟨⟨hsid, rfl⟩, hf.brk⟩, ⟨⟨hsid, rfl⟩, hf.cont⟩⟩
+        | @brk t sid' sid hsid =>
+          simp only
+          rw [lookup_rel hm hsid hs.brk]
+          cases s.brk.lookup sid with
+          | none => simp only [RelEx]
+          | some dest =>
+            simp only [RelEx]
+            exact (rel_keepStatementsAfterJump hc hs i).setFinal
+              ⟨hc.id, hc.ret, rfl, hc.stmts.take i, .breakCtx _⟩
+        | @cont t sid' sid hsid =>
+          simp only
+          rw [lookup_rel hm hsid hs.cont]
+          cases s.cont.lookup sid with
+          | none => simp only [RelEx]
+          | some dest =>
+            simp only [RelEx]
+            exact (rel_keepStatementsAfterJump hc hs i).setFinal
+              ⟨hc.id, hc.ret, rfl, hc.stmts.take i, .breakCtx _⟩
+        | @switch_ t sid' sid o cs' cs hsid hcs =>
+          simp only
+          have ih := rel_createSwitch hcs hc hs o i
+          revert ih
+          generalize createSwitch o cs' cur' i s' = y'
+          generalize createSwitch o cs cur i s = y
+          intro ih
+          obtain ⟨s2', br', ret', cid'⟩ := y'
+          obtain ⟨s2, br, ret, cid⟩ := y
+          obtain ⟨hs2, hbr, hret⟩ := ih
+          simp only [Prod.mk.injEq] at hs2 hbr hret
+          obtain ⟨rfl, rfl⟩ := hret
+          simp only [RelEx]
+          have hf := hs2.setFinal (⟨hc.id, rfl, rfl, hc.stmts.take i, hbr⟩ :
+            RelChunk R ⟨cur'.id, ret', false, cur'.statements.take i, br'⟩
+              ⟨cur.id, ret', false, cur.statements.take i, br⟩)
+          exact ⟨hf.counter, hf.final, hf.queue, ⟨⟨hsid, rfl⟩, hf.brk⟩, ⟨⟨hsid, rfl⟩, hf.cont⟩⟩
+
+theorem rel_runWorklist {R : Ren} (hm : Mono R.s) : ∀ (n : Nat) {s' s : WS}, RelWS R s' s →
+    RelEx (RelWS R) (runWorklist n s') (runWorklist n s)
+  | 0, _, _, _ => by simp only [runWorklist, RelEx]
+  | n + 1, s', s, hs => by
+    rw [runWorklist, runWorklist]
+    have hq := hs.queue
+    revert hq
+    cases hq' : s'.queue with
+    | nil =>
+      cases hq : s.queue with
+      | nil => intro _; simp only [RelEx]; exact hs
+      | cons _ _ => intro h; exact h.elim
+    | cons cur' rest' =>
+      cases hq : s.queue with
+      | nil => intro h; exact h.elim
+      | cons cur rest =>
+        intro h
+        simp only
+        have ih := rel_processChunk hm h.1 (s' := { s' with queue := rest' }) (s := { s with queue := rest })
+          ⟨hs.counter, hs.final, h.2, hs.brk, hs.cont⟩
+        revert ih
+        generalize processChunk cur' _ = y'
+        generalize processChunk cur _ = y
+        intro ih
+        cases y' <;> cases y <;> simp only [RelEx] at ih ⊢
+        · exact ih
+        · exact rel_runWorklist hm n ih
+
+theorem condSize_rel {R : Ren} : ∀ {c' c : BoolExpr}, relB R c' c → condSize c' = condSize c
+  | .leaf _, .leaf _, _ => rfl
+  | .bin l' _ r', .bin l _ r, h => by
+    simp only [relB] at h
+    simp only [condSize, condSize_rel h.1, condSize_rel h.2.2]
+  | .leaf _, .bin .., h => by simp [relB] at h
+  | .bin .., .leaf _, h => by simp [relB] at h
+
+mutual
+theorem stmtSize_rel {R : Ren} : ∀ {a' a : Stmt}, RelS R a' a → stmtSize a' = stmtSize a
+  | _, _, .cmd _ => by simp only [stmtSize]
+  | _, _, .label .. => by simp only [stmtSize]
+  | _, _, .ite t hc hb hes .none => by
+    simp only [stmtSize, condSize_rel hc, stmtsSize_rel hb, elifsSize_rel hes]
+  | _, _, .ite t hc hb hes (.some hb2) => by
+    simp only [stmtSize, condSize_rel hc, stmtsSize_rel hb, elifsSize_rel hes, stmtsSize_rel hb2]
+  | _, _, .while_ (c' := none) (c := none) t hs hc hb => by simp only [stmtSize, stmtsSize_rel hb]
+  | _, _, .while_ (c' := some _) (c := some _) t hs hc hb => by
+    simp only [stmtSize, stmtsSize_rel hb, condSize_rel (show relB R _ _ from hc)]
+  | _, _, .while_ (c' := none) (c := some _) t hs hc hb => hc.elim
+  | _, _, .while_ (c' := some _) (c := none) t hs hc hb => hc.elim
+  | _, _, .doWhile t hs hc hb => by simp only [stmtSize, condSize_rel hc, stmtsSize_rel hb]
+  | _, _, .brk .. => by simp only [stmtSize]
+  | _, _, .cont .. => by simp only [stmtSize]
+  | _, _, .switch_ t o hs hcs => by simp only [stmtSize, casesSize_rel hcs]
+theorem stmtsSize_rel {R : Ren} : ∀ {a' a : List Stmt}, RelL R a' a → stmtsSize a' = stmtsSize a
+  | _, _, .nil => rfl
+  | _, _, .cons hx hr => by simp only [stmtsSize, stmtSize_rel hx, stmtsSize_rel hr]
+theorem elifsSize_rel {R : Ren} : ∀ {a' a : List (BoolExpr × List Stmt)}, RelElifs R a' a →
+    elifsSize a' = elifsSize a
+  | _, _, .nil => rfl
+  | _, _, .cons hc hb hr => by simp only [elifsSize, condSize_rel hc, stmtsSize_rel hb, elifsSize_rel hr]
+theorem casesSize_rel {R : Ren} : ∀ {a' a : List SwitchCase}, RelCases R a' a → casesSize a' = casesSize a
+  | _, _, .nil => rfl
+  | _, _, .cons t d hb hr => by simp only [casesSize, stmtsSize_rel hb, casesSize_rel hr]
+end
+
+theorem rel_scriptChunks {R : Ren} (hm : Mono R.s) {body' body : List Stmt} (h : RelL R body' body) :
+    RelEx (All2 (RelChunk R)) (scriptChunks body') (scriptChunks body) := by
+  unfold scriptChunks
+  rw [stmtsSize_rel h]
+  have ih := rel_runWorklist hm (2 * stmtsSize body + 4)
+    (s' := { queue := [{ id := 0, statements := body' }] }) (s := { queue := [{ id := 0, statements := body }] })
+    ⟨rfl, trivial, ⟨⟨rfl, rfl, rfl, h, .none⟩, trivial⟩, trivial, trivial⟩
+  revert ih
+  generalize runWorklist _ { queue := [{ id := 0, statements := body' }] } = y'
+  generalize runWorklist _ { queue := [{ id := 0, statements := body }] } = y
+  intro ih
+  cases y' <;> cases y <;> simp only [RelEx] at ih ⊢
+  · exact ih
+  · exact ih.final
+
+/-! ### `PoryModel/EmitRender.lean` -/
+
+theorem mono_beq {P : Nat → Nat → Prop} (hm : Mono P) {a' a b' b : Nat} (h1 : P a' a) (h2 : P b' b) :
+    (a' == b') = (a == b) := by
+  by_cases hab : a = b
+  · subst hab
+    have := hm.injective h1 h2
+    subst this
+    simp
+  · have : a' ≠ b' := by
+      intro h; subst h
+      exact hab (hm.functional h1 h2)
+    rw [beq_eq_false_iff_ne.mpr this, beq_eq_false_iff_ne.mpr hab]
+
+/-- corresponding patches: the command ids correspond, argument position and label are equal -/
+def relPatch (R : Ren) (p' p : (Nat × Nat) × String) : Prop := R.c p'.1.1 p.1.1 ∧ p'.1.2 = p.1.2 ∧ p'.2 = p.2
+
+theorem patchedArgs_rel {R : Ren} (hm : Mono R.c) {ps' ps : List ((Nat × Nat) × String)}
+    (hp : All2 (relPatch R) ps' ps) {c' c : Cmd} (hc : relCmd R c' c) :
+    patchedArgs ps' c' = patchedArgs ps c := by
+  unfold patchedArgs
+  have hF : All2 (relPatch R) (ps'.filter fun p => p.1.1 == c'.id) (ps.filter fun p => p.1.1 == c.id) :=
+    All2.filter (fun a b hab => mono_beq hm hab.1 hc.1) hp
+  simp only [hF.isEmpty_eq, hc.2.2.2]
+  cases (ps.filter fun p => p.1.1 == c.id).isEmpty with
+  | true => rfl
+  | false =>
+    simp only [Bool.false_eq_true, if_false]
+    apply List.map_congr_left
+    intro i _
+    have hG := All2.filter (p := fun p => p.1.2 == i) (q := fun p => p.1.2 == i)
+      (fun a b hab => by simp only [hab.2.1]) hF
+    rcases hG.getLast? with ⟨h1, h2⟩ | ⟨a, b, h1, h2, hab⟩
+    · rw [h1, h2]
+    · rw [h1, h2]; exact hab.2.2
+
+theorem renderCommand_rel {R : Ren} (hm : Mono R.c) {ps' ps : List ((Nat × Nat) × String)}
+    (hp : All2 (relPatch R) ps' ps) {c' c : Cmd} (hc : relCmd R c' c) :
+    renderCommand ps' c' = renderCommand ps c := by
+  unfold renderCommand
+  rw [patchedArgs_rel hm hp hc, hc.2.2.1]
+
+theorem renderStatements_rel {R : Ren} (hm : Mono R.c) (o : Opts) {ps' ps : List ((Nat × Nat) × String)}
+    (hp : All2 (relPatch R) ps' ps) (chunkLabels textLabels : List String) :
+    ∀ {a' a : List Stmt}, RelL R a' a →
+      renderStatements o ps' chunkLabels textLabels a' = renderStatements o ps chunkLabels textLabels a
+  | _, _, .nil => rfl
+  | _, _, .cons hx hr => by
+    have ih := renderStatements_rel hm o hp chunkLabels textLabels hr
+    cases hx with
+    | cmd hc => simp only [renderStatements, ih, renderCommand_rel hm hp hc, hc.2.1]
+    | label => simp only [renderStatements, ih]
+    | ite => simp only [renderStatements]
+    | while_ => simp only [renderStatements]
+    | doWhile => simp only [renderStatements]
+    | brk => simp only [renderStatements]
+    | cont => simp only [renderStatements]
+    | switch_ => simp only [renderStatements]
+
+theorem findChunk_rel {R : Ren} (id : Nat) : ∀ {cs' cs : List Chunk}, All2 (RelChunk R) cs' cs →
+    (findChunk cs' id = none ∧ findChunk cs id = none) ∨
+      ∃ c' c, findChunk cs' id = some c' ∧ findChunk cs id = some c ∧ RelChunk R c' c
+  | [], [], _ => .inl ⟨rfl, rfl⟩
+  | c' :: cs', c :: cs, h => by
+    unfold findChunk
+    simp only [List.find?_cons, h.1.id]
+    cases (c.id == id) with
+    | true => exact .inr ⟨c', c, rfl, rfl, h.1⟩
+    | false => exact findChunk_rel id h.2
+  | [], _ :: _, h => h.elim
+  | _ :: _, [], h => h.elim
+
+theorem tailId_rel {R : Ren} {c' c : Chunk} (h : RelChunk R c' c) : tailId c' = tailId c := by
+  unfold tailId
+  have hb := h.br
+  revert hb
+  generalize c'.branch = b'
+  generalize c.branch = b
+  intro hb
+  cases hb <;> simp only [h.ret]
+
+theorem optimizeLoop_rel {R : Ren} {cs' cs : List Chunk} (h : All2 (RelChunk R) cs' cs) (total : Nat) :
+    ∀ (n : Nat) (order unv : List Nat) (i : Nat),
+      optimizeLoop cs' total n order unv i = optimizeLoop cs total n order unv i
+  | 0, _, _, _ => by rw [optimizeLoop, optimizeLoop]
+  | n + 1, order, unv, i => by
+    have hpick : optimizeLoop.pick cs' total n order unv i = optimizeLoop.pick cs total n order unv i := by
+      rw [optimizeLoop.pick, optimizeLoop.pick]
+      cases scanUnvisited unv total (total + 1) i with
+      | mk j i' =>
+        cases j with
+        | none => rfl
+        | some j => simp only [optimizeLoop_rel h total n]
+    rw [optimizeLoop, optimizeLoop]
+    cases hlt : decide (order.length < total) with
+    | false =>
+      simp only [decide_eq_false_iff_not] at hlt
+      simp only [hlt, if_false]
+    | true =>
+      simp only [decide_eq_true_eq] at hlt
+      simp only [hlt, if_true]
+      cases order.getLast? with
+      | none => rfl
+      | some last =>
+        simp only
+        rcases findChunk_rel last h with ⟨h1, h2⟩ | ⟨c', c, h1, h2, hc⟩
+        · rw [h1, h2]
+        · rw [h1, h2]
+          simp only [tailId_rel hc, hpick, optimizeLoop_rel h total n]
+
+theorem optimizeChunkOrder_rel {R : Ren} {cs' cs : List Chunk} (h : All2 (RelChunk R) cs' cs) :
+    optimizeChunkOrder cs' = optimizeChunkOrder cs := by
+  unfold optimizeChunkOrder
+  have hids : cs'.map (·.id) = cs.map (·.id) := all2_map_eq' (fun a b hab => hab.id) h
+  rw [h.isEmpty_eq, h.length_eq, hids, optimizeLoop_rel h]
+
+theorem renderBranching_rel {R : Ren} (hm : Mono R.c) (o : Opts) {ps' ps : List ((Nat × Nat) × String)}
+    (hp : All2 (relPatch R) ps' ps) (scriptName : String) {c' c : Chunk} (h : RelChunk R c' c)
+    (next : Option Nat) :
+    renderBranching o ps' scriptName c' next = renderBranching o ps scriptName c next := by
+  unfold renderBranching
+  have hb := h.br
+  revert hb
+  generalize c'.branch = b'
+  generalize c.branch = b
+  intro hb
+  cases hb with
+  | none => simp only [h.ret, h.term]
+  | jump d => rfl
+  | breakCtx d => rfl
+  | switch_ => rfl
+  | @leaf t e' e f he =>
+    obtain ⟨h1, h2, h3, h4, h5, h6⟩ := he
+    have hcmp : renderBranchComparison o scriptName t e' = renderBranchComparison o scriptName t e := by
+      unfold renderBranchComparison
+      simp only [h1, h2, h3, h4, h5]
+    simp only [hcmp]
+    revert h6
+    cases e'.preamble <;> cases e.preamble <;> intro h6
+    · rfl
+    · exact h6.elim
+    · exact h6.elim
+    · simp only [renderCommand_rel hm hp h6]
+
+theorem renderBodies_rel {R : Ren} (hm : Mono R.c) (o : Opts) {ps' ps : List ((Nat × Nat) × String)}
+    (hp : All2 (relPatch R) ps' ps) (scriptName : String) {cs' cs : List Chunk}
+    (h : All2 (RelChunk R) cs' cs) (chunkLabels textLabels : List String) :
+    ∀ (order : List Nat),
+      renderBodies o ps' scriptName cs' chunkLabels textLabels order =
+        renderBodies o ps scriptName cs chunkLabels textLabels order
+  | [] => by rw [renderBodies, renderBodies]
+  | id :: rest => by
+    rw [renderBodies, renderBodies]
+    rcases findChunk_rel id h with ⟨h1, h2⟩ | ⟨c', c, h1, h2, hc⟩
+    · rw [h1, h2]
+    · rw [h1, h2]
+      simp only [renderStatements_rel hm o hp chunkLabels textLabels hc.stmts,
+        renderBranching_rel hm o hp scriptName hc, renderBodies_rel hm o hp scriptName h chunkLabels textLabels rest]
+
+theorem renderChunks_rel {R : Ren} (hm : Mono R.c) (o : Opts) {ps' ps : List ((Nat × Nat) × String)}
+    (hp : All2 (relPatch R) ps' ps) {cs' cs : List Chunk} (h : All2 (RelChunk R) cs' cs)
+    (scriptName : String) (isGlobal : Bool) (textLabels : List String) :
+    renderChunks o ps' cs' scriptName isGlobal textLabels = renderChunks o ps cs scriptName isGlobal textLabels := by
+  unfold renderChunks
+  have hids : cs'.map (·.id) = cs.map (·.id) := all2_map_eq' (fun a b hab => hab.id) h
+  have hlabels : (cs'.map fun c => chunkLabel scriptName c.id) = (cs.map fun c => chunkLabel scriptName c.id) :=
+    all2_map_eq' (fun a b hab => by simp only [hab.id]) h
+  simp only [optimizeChunkOrder_rel h, hids, hlabels, renderBodies_rel hm o hp scriptName h]
+
+/-- **The emitter model does not depend on the numbering of command ids and scope ids**: two scripts with the
+same token, name and scope whose bodies are the same statements up to an order-preserving correspondence `R`
+of command ids (`R.c`) and of scope ids (`R.s`), emitted with patch lists that correspond under `R.c` (same
+length, same argument positions and labels, corresponding command ids), give the same result — the same
+lines, or the same error. -/
+theorem emit_ids_irrelevant (R : Ren) (hc : Mono R.c) (hs : Mono R.s) (o : Opts)
+    {patches' patches : List ((Nat × Nat) × String)} (hp : All2 (relPatch R) patches' patches)
+    (textLabels : List String) {s' s : Script} (hname : s'.name = s.name) (hscope : s'.scope = s.scope)
+    (hbody : RelL R s'.body s.body) :
+    emitScript o patches' textLabels s' = emitScript o patches textLabels s := by
+  unfold emitScript
+  have h := rel_scriptChunks hs hbody
+  revert h
+  generalize scriptChunks s'.body = y'
+  generalize scriptChunks s.body = y
+  intro h
+  cases y' <;> cases y <;> simp only [RelEx] at h ⊢
+  · rw [h]
+  · rw [hname, hscope]
+    exact renderChunks_rel hc o hp h _ _ _
+
+/-! ### the patches recorded for implicit texts / movements -/
+open Pory.Parser
+
+/-- The same parser state except for the patch list; the patch lists correspond. -/
+def RelPS (R : Ren) (s' s : PState) : Prop :=
+  ∃ ps, s' = { s with patches := ps } ∧ All2 (relPatch R) ps s.patches
+
+theorem rel_addTextStep {R : Ren} {s' s : PState} (h : RelPS R s' s) {t' t : ImpText} (ht : relText R t' t) :
+    RelPS R (addTextStep s' t') (addTextStep s t) := by
+  obtain ⟨ps, rfl, hps⟩ := h
+  obtain ⟨h1, h2, h3, h4, h5⟩ := ht
+  unfold addTextStep
+  simp only [h2, h3, h4, h5]
+  cases s.inlineTextsSet.lookup (t.text.lit, t.stringType) with
+  | some label => exact ⟨_, rfl, hps.snoc ⟨h1, rfl, rfl⟩⟩
+  | none => exact ⟨_, rfl, hps.snoc ⟨h1, rfl, rfl⟩⟩
+
+theorem rel_addMovementStep {R : Ren} {s' s : PState} (h : RelPS R s' s) {t' t : ImpMovement}
+    (ht : relMove R t' t) : RelPS R (addMovementStep s' t') (addMovementStep s t) := by
+  obtain ⟨ps, rfl, hps⟩ := h
+  obtain ⟨h1, h2, h3, h4, h5⟩ := ht
+  unfold addMovementStep
+  simp only [h2, h3, h4, h5]
+  cases s.inlineMovementsSet.lookup (getMovementsKey t.movements) with
+  | some label => exact ⟨_, rfl, hps.snoc ⟨h1, rfl, rfl⟩⟩
+  | none => exact ⟨_, rfl, hps.snoc ⟨h1, rfl, rfl⟩⟩
+
+theorem rel_foldl {α : Type} {P : α → α → Prop} {R : Ren} {step : PState → α → PState}
+    (hstep : ∀ {s' s : PState}, RelPS R s' s → ∀ {t' t : α}, P t' t → RelPS R (step s' t') (step s t)) :
+    ∀ {l' l : List α}, All2 P l' l → ∀ {s' s : PState}, RelPS R s' s →
+      RelPS R (l'.foldl step s') (l.foldl step s)
+  | [], [], _, _, _, h => h
+  | _ :: _, _ :: _, hl, _, _, h => rel_foldl hstep hl.2 (hstep h hl.1)
+  | [], _ :: _, hl, _, _, _ => hl.elim
+  | _ :: _, [], hl, _, _, _ => hl.elim
+
+/-- What `addImplicitData` does to the parser state. -/
+def addImp (d : ImpData) (s : PState) : PState :=
+  d.movements.foldl addMovementStep (d.texts.foldl addTextStep s)
+
+theorem addImplicitData_run (d : ImpData) (s : PState) : (addImplicitData d).run s = .ok ((), addImp d s) := rfl
+
+theorem rel_addImp {R : Ren} {s' s : PState} (h : RelPS R s' s) {m' m : ImpData} (hm : relImp R m' m) :
+    RelPS R (addImp m' s') (addImp m s) :=
+  rel_foldl (P := relMove R) (step := addMovementStep) (fun h _ _ ht => rel_addMovementStep h ht) hm.2
+    (rel_foldl (P := relText R) (step := addTextStep) (fun h _ _ ht => rel_addTextStep h ht) hm.1 h)
 
 end Pory.C12c
